@@ -111,6 +111,8 @@ def handleEval (T : Tables) (line : String) : String :=
   if (line.splitOn "\"~").length > (line.splitOn "\"~ns:").length then "UNMODELLED" else
   -- values that contain themselves ("t":"cyc"): the model's values are finite trees
   if (line.splitOn "\"t\":\"cyc\"").length > 1 then "UNMODELLED" else
+  -- pointers to interface variables (`*any`, "pa":1): the model's pointers point at concrete values
+  if (line.splitOn "\"pa\":1").length > 1 then "UNMODELLED" else
   match Json.parse line with
   | .error e => s!"BADJSON {e}"
   | .ok j =>
